@@ -14,6 +14,9 @@ import (
 
 // ModuleFuncs: every function (incl. closures) of the two library packages.
 func (p *Program) ModuleFuncs() []*ssa.Function {
+	if p.moduleFuncs != nil {
+		return p.moduleFuncs
+	}
 	var out []*ssa.Function
 	for f := range ssautil.AllFunctions(p.SSA) {
 		if p.InModule(f) && len(f.Blocks) > 0 {
@@ -26,6 +29,7 @@ func (p *Program) ModuleFuncs() []*ssa.Function {
 		}
 		return out[i].Pos() < out[j].Pos()
 	})
+	p.moduleFuncs = out // the program does not change once it is loaded; callers only read the slice
 	return out
 }
 
